@@ -4,6 +4,7 @@ import (
 	sdkmath "cosmossdk.io/math"
 	sdk "github.com/cosmos/cosmos-sdk/types"
 	ammtypes "github.com/elys-network/elys/x/amm/types"
+	apkeeper "github.com/elys-network/elys/x/assetprofile/keeper"
 	aptypes "github.com/elys-network/elys/x/assetprofile/types"
 	otypes "github.com/elys-network/elys/x/oracle/types"
 	ptypes "github.com/elys-network/elys/x/parameter/types"
@@ -51,6 +52,7 @@ func twoPools(withPrices bool) *wire.Env {
 }
 
 // Which pool routes a by-denom swap / prices a token when several pools hold the pair (ties in TVL included)
+//
 //vrf:product
 //vrf:witnesses 0
 //vrf:bound 3 constant-product pools with the same two assets, symbolic reserves <= 1e15, oracle prices present (5 and 1) or absent
@@ -66,6 +68,7 @@ func H_Amm_BestPoolAmongSeveral() {
 // code (integer power, square root, Maclaurin series, exp/ln method incl. the base == 2 and base == 1 shortcuts,
 // large and tiny bases; exact powers of two >= 4 are left out: the unchanged code cannot compute their logarithm and panics): run twice in the product, and no package-level constant of the module may have changed
 // afterwards (a node that has evaluated one of these must compute the next swap like a node that has not).
+//
 //vrf:product
 //vrf:witnesses 0
 //vrf:bound 12 concrete (base, exponent) pairs covering the branches of Pow / powerApproximation; the check is on package-level state, not on the numeric results
@@ -81,4 +84,36 @@ func H_Amm_PowLeavesNoTrace() {
 		b, e := sdkmath.LegacyMustNewDecFromStr(r[0]), sdkmath.LegacyMustNewDecFromStr(r[1])
 		vrf.Observe("again"+string(rune('a'+i)), ammtypes.Pow(b, e))
 	}
+}
+
+// An asset-profile entry is looked up by denom, governance moves the entry to another denom, the old denom is looked
+// up again: the answer comes from the store (a node restarted in between answers the same), and no keeper object keeps
+// state of its own between the calls.
+//
+//vrf:product
+//vrf:witnesses 0
+//vrf:bound 2 asset-profile entries; look-ups by denom before and after a governance MsgUpdateEntry that changes one entry's denom (symbolic choice of which)
+func H_Assetprofile_LookupByDenomAcrossUpdate() {
+	env := wire.New(wire.Opts{})
+	ctx := env.Ctx
+	env.Aprof.SetEntry(ctx, aptypes.Entry{Authority: wire.Gov, BaseDenom: "uatom", Denom: "ibc/AAAA", Decimals: 6})
+	env.Aprof.SetEntry(ctx, aptypes.Entry{Authority: wire.Gov, BaseDenom: ptypes.BaseCurrency, Denom: "uusdc", Decimals: 6})
+	e0, f0 := env.Aprof.GetEntryByDenom(ctx, "ibc/AAAA")
+	vrf.Observe("before-found", f0)
+	vrf.Observe("before-base", e0.BaseDenom)
+	base := "uatom"
+	if vrf.Bool("updateUsdc") {
+		base = ptypes.BaseCurrency
+	}
+	srv := apkeeper.NewMsgServerImpl(*env.Aprof)
+	_, err := srv.UpdateEntry(ctx, &aptypes.MsgUpdateEntry{Authority: wire.Gov, BaseDenom: base, Denom: "ibc/BBBB", Decimals: 6})
+	vrf.Observe("update-ok", err == nil)
+	e1, f1 := env.Aprof.GetEntryByDenom(ctx, "ibc/AAAA")
+	vrf.Observe("after-found", f1)
+	vrf.Observe("after-base", e1.BaseDenom)
+	stored, _ := env.Aprof.GetEntry(ctx, "uatom")
+	vrf.Assert(f1 == (stored.Denom == "ibc/AAAA"), "C19 restart: a look-up by denom answers from the store (what a restarted node would answer)")
+	e2, f2 := env.Aprof.GetEntryByDenom(ctx, "ibc/BBBB")
+	vrf.Observe("new-found", f2)
+	vrf.Observe("new-base", e2.BaseDenom)
 }
